@@ -106,6 +106,10 @@ def generate(X):
             raise ValueError("rewrite of a multi-character pattern")
 
     L = X.lstr
+
+    def C(t):
+        return "[" + ", ".join(str(ord(c)) for c in t) + "]"
+
     text = (
         X.header()
         + "namespace Unyt.Generated\n\n"
@@ -115,6 +119,11 @@ def generate(X):
         + "def parseGlobalTypes : List String := [" + ", ".join(L(k) for k in types) + "]\n\n"
         + "/-- `unit_expr.replace(a, b)` of parse_unyt_expr, in order -/\n"
         + "def parseRewrites : List (Char × String) := [" + ", ".join(f"(Char.ofNat {ord(a)}, {L(b)})" for a, b in reps) + "]\n\n"
+        + "/-- the same tables as code points (`String.toList` is very slow in the kernel) -/\n"
+        + "def parseGlobalFnCodes : List (List Nat) := [" + ", ".join(C(k) for k in fns) + "]\n"
+        + "def parseGlobalTypeCodes : List (List Nat) := [" + ", ".join(C(k) for k in types) + "]\n"
+        + "def parseRewriteCodes : List (Nat × List Nat) := [" + ", ".join(f"({ord(a)}, {C(b)})" for a, b in reps) + "]\n"
+        + f"def parseEmptyCodes : List Nat := {C(empty)}\n\n"
         + "/-- what the empty string is replaced by -/\n"
         + f"def parseEmpty : String := {L(empty)}\n\n"
         + "/-- `Unit.__str__`: text for `expr == 1`, and the (printed expression ↦ text) special cases -/\n"
@@ -125,5 +134,40 @@ def generate(X):
         + "end Unyt.Generated\n"
     )
     X.write_if_changed(os.path.join(X.GEN, "ParseVocab.lean"), text)
+
+    # inv_name_alternatives as a balanced search tree over code points (see UnytModel/NameTree.lean)
+    from unyt._unit_lookup_table import inv_name_alternatives as inv
+
+    items = sorted(inv.items(), key=lambda kv: [ord(c) for c in kv[0]])
+
+    def tree(lo, hi, ind):
+        if lo >= hi:
+            return ".leaf"
+        mid = (lo + hi) // 2
+        k, v = items[mid]
+        codes = "[" + ", ".join(str(ord(c)) for c in k) + "]"
+        pad = " " * ind
+        return ("(.node\n" + pad + " " + tree(lo, mid, ind + 1) + "\n" + pad + " " + codes + " " + L(v) + " " + C(v) + "\n"
+                + pad + " " + tree(mid + 1, hi, ind + 1) + ")")
+
+    # split into sub-definitions of ≤ 256 entries so that no single term is huge
+    defs = []
+
+    def build(lo, hi, name):
+        if hi - lo <= 256:
+            defs.append(f"def {name} : NameTree :=\n {tree(lo, hi, 1)}\n")
+            return name
+        mid = (lo + hi) // 2
+        k, v = items[mid]
+        l = build(lo, mid, name + "l")
+        r = build(mid + 1, hi, name + "r")
+        codes = "[" + ", ".join(str(ord(c)) for c in k) + "]"
+        defs.append(f"def {name} : NameTree := .node {l} {codes} {L(v)} {C(v)} {r}\n")
+        return name
+
+    build(0, len(items), "nameTreeT")
+    ttext = (X.header("UnytModel.NameTree") + "namespace Unyt.Generated\n\n" + "\n".join(defs)
+             + "\n/-- `inv_name_alternatives`, sorted by key in code-point order -/\ndef nameTree : NameTree := nameTreeT\n\nend Unyt.Generated\n")
+    X.write_if_changed(os.path.join(X.GEN, "ParseNames.lean"), ttext)
     return {"fns": fns, "types": types, "rewrites": reps, "empty": empty, "str_one": str_one,
             "str_special": str_special, "repr_one": repr_one}
